@@ -97,7 +97,7 @@ def parse_dump_facts(path):
         if "values" not in a or a.get("type") == "number":
             continue
         for v in vals.get(a["values"], []):
-            if v.get("valueKind") == "known" and "intvalue" in v:
+            if v.get("known") == "true" and "intvalue" in v and v.get("indirect", "0") == "0" and v.get("path", "0") == "0":
                 res.append((int(a["linenr"]), int(a["column"]), a["str"], v["intvalue"]))
     return res
 
@@ -160,16 +160,18 @@ def choose_chains(hists, letters_ok, rng, nchains, first_cycle, maxlen=3):
     return res
 
 
-def run_corpus(progs, chains_of, facts=False, witness_every=1, log=None):
+def run_corpus(progs, chains_of, facts=False, witness_every=1, log=None, both_langs=False):
     """chains_of(i, prog) -> list of histories. Returns (records for the judge, index, stats)."""
     # 1. renderings
     jobs = {}            # (pi, lang, digest) -> text
+    wit = set()          # renderings that also go to the compiler (all renderings of every witness_every-th history)
     plan = []            # (pi, lang, chain, [ (letter, R, digest, maps) ... ] with element 0 = base)
     for pi, prog in enumerate(progs):
         chains = chains_of(pi, prog)
         cache = {}
-        for lang in prog["langs"]:
-            for ch in chains:
+        for ci, ch in enumerate(chains):
+            # every history of a program runs in one language; the languages alternate over its histories
+            for lang in (prog["langs"] if both_langs else [prog["langs"][(pi + ci) % len(prog["langs"])]]):
                 R = rc.init_rendering()
                 seq = []
                 for step in [None] + list(ch):
@@ -181,13 +183,15 @@ def run_corpus(progs, chains_of, facts=False, witness_every=1, log=None):
                         cache[rk] = (text, maps, hashlib.sha1(text.encode()).hexdigest())
                     text, maps, dg = cache[rk]
                     jobs[(pi, lang, dg)] = text
+                    if witness_every and ci % witness_every == 0:
+                        wit.add((pi, lang, dg))
                     seq.append((step, R, dg, maps))
                 plan.append((pi, lang, ch, seq))
     # 2. analyses
     results = {}
     keys = sorted(jobs)
     with concurrent.futures.ThreadPoolExecutor(max_workers=WORKERS) as ex:
-        futs = {k: ex.submit(analyze, jobs[k], k[1], facts, (n % witness_every) == 0 if witness_every else False) for n, k in enumerate(keys)}
+        futs = {k: ex.submit(analyze, jobs[k], k[1], facts, k in wit) for k in keys}
         for n, k in enumerate(keys):
             results[k] = futs[k].result()
             if log and n % 200 == 0:
